@@ -175,8 +175,8 @@ def _wide_cases(tier, seed):
             c["n_atoms"] = int(rng.integers(1, 6))
         elif kind == "late":  # long trajectories: isolated atoms until the last 1-3 frames, where the atoms overlap
             c["n_atoms"] = int(rng.integers(3, 10))
-            c["n_frames"] = int(rng.choice([30, 64, 101, 257]))
-            c["n_points"] = int(rng.choice([7, 30, 61]))
+            c["n_frames"] = int(rng.choice([30, 64, 101, 257, 1030] if quick else [30, 64, 101, 257, 1030, 2100, 4097]))
+            c["n_points"] = int(rng.choice([7, 30, 61])) if c["n_frames"] < 1000 else 7
         elif kind == "lattice":  # thousands of atoms
             c["n_atoms"] = int(rng.integers(1200, 2501 if quick else 6001))
             c["n_points"] = int(rng.choice([5, 10, 24]))
